@@ -152,6 +152,7 @@ const maxInlineDepth = 6
 type BuildOpts struct {
 	Tag    string                        // cache tag
 	Inline func(callee *ssa.Function) bool // additionally expand these (known) library callees
+	Depth  int                             // frame-stack limit (default 5)
 	Opaque func(callee *ssa.Function) bool // never expand these
 }
 
@@ -386,7 +387,7 @@ func (b *gcBuilder) emit(st *pstate, from int, exit *Term) {
 // inlinable decides whether a static library callee is expanded in place: closures and compiler-generated wrappers always,
 // helpers that the pinned symbol table does not know (introduced by a refactoring) always, known functions only on request.
 func (b *gcBuilder) inlinable(st *pstate, callee *ssa.Function) bool {
-	if callee == nil || callee.Blocks == nil || len(st.frames) >= 5 || !b.p.IsLib(callee) {
+	if callee == nil || callee.Blocks == nil || len(st.frames) >= b.maxFrames() || !b.p.IsLib(callee) {
 		return false
 	}
 	for _, fr := range st.frames {
@@ -407,6 +408,13 @@ func (b *gcBuilder) inlinable(st *pstate, callee *ssa.Function) bool {
 		return true
 	}
 	return !b.p.KnownFunc(callee)
+}
+
+func (b *gcBuilder) maxFrames() int {
+	if b.opts.Depth > 0 {
+		return b.opts.Depth
+	}
+	return 5
 }
 
 // resolveFunc follows a func-typed value through parameters and free variables of the inline stack to its definition.
@@ -799,6 +807,24 @@ func (s *pstate) term(v ssa.Value) *Term {
 		// a φ of a block that is neither on this path nor the start header: opaque symbol
 		if fi := s.frameIndexOf(x.Parent()); fi >= 0 {
 			if k, ok := s.b.cutIdx[blockKey(s.frames[fi], x.Block())]; ok {
+				// the instance of that header this path came through: the one whose context agrees with the values
+				// decided on this path (a header split per context is left through the matching instance only)
+				best := 0
+				for ck, c := range s.b.cuts {
+					if c.blk != x.Block() || len(c.ctx) <= best || len(c.frames) != fi+1 || blockKey(c.frames[len(c.frames)-1], c.blk) != blockKey(s.frames[fi], x.Block()) {
+						continue
+					}
+					agree := true
+					for _, ce := range c.ctx {
+						if t, ok := s.env[ce.phi]; !ok || toPre(t).String() != ce.t.String() {
+							agree = false
+							break
+						}
+					}
+					if agree {
+						best, k = len(c.ctx), ck
+					}
+				}
 				n := 0
 				for _, in := range x.Block().Instrs {
 					if in == ssa.Instruction(x) {
@@ -1205,6 +1231,24 @@ func mkBin(op token.Token, a, b *Term) *Term {
 					return pr[1]
 				}
 				return mkNot(pr[1])
+			}
+		}
+		// a named boolean (the node colour: black = true, red = false) compared with its false constant is the comparison
+		// with the true constant, negated — one spelling, so that `c != black` and `c == red` are the same atom and
+		// `c != black ∧ c != red` is recognised as infeasible
+		if ca, ok := a.constBool(); ok && !ca && a.Op == "#" && strings.HasPrefix(a.Leaf, "false:") {
+			a = leaf("#", "true:"+a.Leaf[len("false:"):])
+			if op == token.EQL {
+				op = token.NEQ
+			} else {
+				op = token.EQL
+			}
+		} else if cb, ok := b.constBool(); ok && !cb && b.Op == "#" && strings.HasPrefix(b.Leaf, "false:") {
+			b = leaf("#", "true:"+b.Leaf[len("false:"):])
+			if op == token.EQL {
+				op = token.NEQ
+			} else {
+				op = token.EQL
 			}
 		}
 		// nil against nil / against a fresh allocation: decided (an inlined helper returning nil, a just-built node)
